@@ -205,6 +205,14 @@ CHECKS = {
         note="PARTIAL: decides heap out-of-bounds writes within 64 bytes of a block, leaks, double frees, and uses of uninitialised/freed heap memory that change a result or an export. NOT decided: out-of-bounds reads without effect, stack accesses, accesses far outside a block, "
              "anything inside hand-written assembly that stays in mapped memory. The ASan/UBSan/Valgrind configurations named by the property are a different technique and are not run. Found and repaired through this family of checks: D2, D3, D4.",
         design="§6 C16, §7"),
+    "C20": dict(
+        category="other",
+        technique="Cross-configuration conformance replay: one driver compiled as C99 and as C++11 against each of the ten library builds, exported-symbol tables, and a C99 link test, validated by a TLA+ memo specification (Trace_Compat)",
+        text="The check prints, through a C99 and a C++11 compilation of the same driver, sizeof and offsetof of every field of the 20 public structures and the observations of one seeded API behaviour (key generation, encryption, a gate, decryption, reads of struct fields through the headers, export of the cloud key); "
+             "it extracts the exported symbols of the five variants x two builds with nm, the functions the headers declare to a C99 compiler, and links a C99 program referencing every exported API function against every variant. TLC validates the event stream against a memo specification: layouts identical in both views, "
+             "portable observations identical across all variants and views, back-end dependent ones identical across the views of a variant, no variant missing a function another one exports, no API function exported only with C++ linkage, every link succeeds.",
+        note="Conformance testing across configurations with very little specification content; level 'other'. The literal symbol-table and header-compilation clauses are observed through compilers and nm, which is outside what a TLA+ specification can derive.",
+        design="§6 C20, §7"),
 }
 
 HOOK_COMMITS = ["f8e83e6", "cb256e3"]
